@@ -118,13 +118,24 @@ func driveCT(c *ctx) {
 			t.ConditionalNegate(t, t.IsGreaterThanHalfN())
 			_ = t.IsZero() | t.Equal(s)
 		})
+		fe, _ := field.NewElement().SetBytes(be32(d))
+		// equality of two DIFFERENT secrets: which internal limb is the first to differ is a fact about the secrets
+		{
+			m := s.VerifMont()
+			m[svIdx%4] ^= 1 << uint(7+svIdx%50)
+			other := secp256k1.NewScalar().VerifSetMont(m)
+			emit("scalar", "sc.Equal.unequal", "-", sv.cls, false, func() { _ = s.Equal(other) | other.Equal(s) })
+			fm := fe.VerifMont()
+			fm[svIdx%4] ^= 1 << uint(3+svIdx%50)
+			fother := field.NewElement().VerifSetMont(fm)
+			emit("field", "fe.Equal.unequal", "-", sv.cls, false, func() { _ = fe.Equal(fother) | fother.Equal(fe) })
+		}
 		emit("scalar", "sc.Bytes+SetBytes", "-", sv.cls, false, func() {
 			var b [32]byte
 			copy(b[:], s.Bytes())
 			_, _ = secp256k1.NewScalar().SetBytes(&b)
 		})
 		// ---- field arithmetic on secret field elements (a scalar's bytes reduced into the field)
-		fe, _ := field.NewElement().SetBytes(be32(d))
 		emit("field", "fe.Invert", "-", sv.cls, false, func() { field.NewElement().Invert(fe) })
 		emit("field", "fe.Sqrt", "-", sv.cls, false, func() { _, _ = field.NewElement().Sqrt(fe) })
 		emit("field", "fe.Mul+Sqr+Neg+CSel", "-", sv.cls, false, func() {
